@@ -1,5 +1,6 @@
 //! Implementation-side interpreter of verification scripts (see driver/main.ml for the
 //! model side).  One command per stdin line, one result line per command.
+mod e2;
 mod util;
 mod wal;
 
@@ -10,6 +11,7 @@ fn main() {
     let stdout = std::io::stdout();
     let mut out = std::io::BufWriter::new(stdout.lock());
     let mut wal_engine: Option<wal::WalEngine> = None;
+    let mut e2_engine: Option<e2::E2> = None;
     std::panic::set_hook(Box::new(|_| {}));
     for line in stdin.lock().lines() {
         let line = line.unwrap();
@@ -19,6 +21,15 @@ fn main() {
         let toks: Vec<&str> = line.split(' ').collect();
         let res = std::panic::catch_unwind(std::panic::AssertUnwindSafe(|| match toks[0] {
             "wal" => wal_engine.get_or_insert_with(wal::WalEngine::new).cmd(&toks[1..]),
+            "e2" => {
+                if toks.len() > 1 && toks[1] == "new" {
+                    e2_engine = None; // closes the previous store and removes its directory
+                    e2_engine = Some(e2::E2::new());
+                    "ok".to_string()
+                } else {
+                    e2_engine.get_or_insert_with(e2::E2::new).cmd(&toks[1..])
+                }
+            }
             _ => "bad-command".to_string(),
         }));
         let s = match res {
